@@ -213,7 +213,11 @@ func (l *recListener) AddSample(v float64, tags ...string) {
 	if l.r.OnSample != nil {
 		l.r.OnSample(l.r.Samples[len(l.r.Samples)-1])
 	}
+	park := l.r.Park
 	l.r.mu.Unlock()
+	if park != nil {
+		park() // outside the registry's own mutex: a parked emitter must not stop other emitters here
+	}
 }
 
 // RecordingRegistry is a core.MetricRegistry double that records registrations and samples.
@@ -226,6 +230,7 @@ type RecordingRegistry struct {
 	Starts    int
 	Stops     int
 	OnSample  func(RecSample)
+	Park      func()
 }
 
 func newRecordingRegistry() *RecordingRegistry {
